@@ -16,15 +16,26 @@ LEVEL = "proof"
 LEVEL_TEXT = ("Lean 4 theorems for all workspaces, histories (edits, tampering with output paths, taints, lost blobs, builds with any "
               "flags) and topological orders of the model of execute.go/registry.go/target_hasher.go: the cache stays sound, a successful "
               "mode-all build from any reachable cache ends with exactly the outputs of the cache-free specification, and a served result "
-              "was produced by the same key-state. Hypotheses: key injective (C09), exact restore (C06), atomic per-target steps, commands "
-              "write all their declared outputs, WF (distinct output paths, inputs/checks disjoint from outputs). The model is tied to the "
-              "code on every run by history correspondence against the real CLI plus a real clean-build oracle.")
+              "was produced by the same key-state. The key-state carries (dependency label, output hash) pairs (the repaired "
+              "hashTargetDefinition). Hypotheses: key injective (C09; strict layer) or, real-key layer, Hash.key over the rendered state with "
+              "renderings that do not collide on the OCCURRING key-states (Compose.Universe / RealKey, non-trivial instance exRealKey, "
+              "two-target build ex_build_succeeds); exact restore (C06), atomic per-target steps, commands write all their declared outputs, "
+              "WF (distinct output paths, inputs/checks disjoint from outputs). The model is tied to the code on every run by history "
+              "correspondence against the real CLI plus a real clean-build oracle.")
 LEVEL_NOTE = ("Trusted: Lean kernel; the hand-written model (tied by sampled histories only); alias/glob/selection resolution is redone "
               "in the harness (tools/checks/_hist.py), not in Lean; docker outputs and commands that are not functions of their "
-              "declared inputs are outside the claim; two running commands are never interleaved in the model.")
+              "declared inputs are outside the claim; two running commands are never interleaved in the model. Scope of the history "
+              "theorems: every build of the history is mode all and well-formed (StepOK); histories whose builds run with load_outputs=minimal "
+              "are cacheSound_preserved_minimal (through C15's lock step: the minimal run leaves the same cache as the all run; no lost "
+              "blobs); WF.inputsOff and the "
+              "`hag` hypothesis of build_eq_clean range over the SELECTED order only (an input that is an output of an unselected target "
+              "stays in the reference workspace: F-globout through a non-dependency); a command that exits 0 without writing a declared "
+              "output is outside the theorems (Good.complete) and covered by C14/C05 and the generators; glob resolution and alias "
+              "following are redone in Python (WF.hdeps = deps is a hypothesis: alias_skipped_witness is what happens without it).")
 TECHNIQUE = "Lean 4 proof over an executable model + history correspondence with the real CLI + real clean-build oracle"
 OBLIGATIONS = [
     "Grog.C01.cacheSound_preserved",
+    "Grog.C01.cacheSound_preserved_minimal",
     "Grog.C01.build_sim",
     "Grog.C01.build_eq_clean",
     "Grog.C01.hit_same_state",
@@ -37,18 +48,23 @@ OBLIGATIONS = [
     "Grog.Compose.hit_same_stateK",
     "Grog.Compose.build_eq_clean_real",
     "Grog.Compose.cacheSound_preserved_real",
+    "Grog.Compose.unlabelled_deps_blind_witness",
+    "Grog.Compose.exRealKey",
+    "Grog.Compose.ex_build_succeeds",
 ]
 PROP_MODULES = ["GrogModel.Props.C01", "GrogModel.Props.ComposeBuild"]
 ASSUMPTIONS = [
     "strict layer (Grog.C01.*): cache key injective on all key-states; real-key layer (Grog.Compose.*_real): key = Hash.key H o render, "
-    "from C09.key_eq_iff under RealKey: H injective without '_' in digests, printed output hashes < 2^64 bytes, the command's result depends on "
-    "the command text, the set of (input path, content) pairs and the multiset of dependency output hashes only; sizes < 2^64, distinct fingerprint keys",
+    "from C09.key_eq_iff under RealKey over a Universe of occurring targets / contents / output hashes: H injective without '_' in digests, printed "
+    "output hashes < 2^64 bytes, on OCCURRING key-states the command's result depends on the command text, the set of (input path, content) pairs and the "
+    "(dependency label, output-hash string) pairs only (no collision of the renderings on what occurs), output hashes produced from what occurs occur; "
+    "sizes < 2^64, distinct fingerprint keys, dependency labels distinct",
     "restore writes exactly the stored value (C06); parent-directory deletion of cached file outputs is left out of the generators until F-mkdir is repaired (agent stores)",
     "builds are atomic per-target steps in a topological order (C03/C11)",
     "generated commands are deterministic functions of declared inputs and dependency outputs (the property's premise)",
 ]
 
-FAMILIES_QUICK = [("edits", 3), ("alias", 3), ("shift", 2), ("tamper", 3), ("dirs", 4), ("swap", 4), ("shared", 4), ("wipe", 2), ("links", 4), ("revert", 4), ("taint", 2), ("disabled", 2), ("nocache", 2)]
+FAMILIES_QUICK = [("edits", 3), ("alias", 2), ("shift", 2), ("tamper", 3), ("dirs", 4), ("swap", 3), ("shared", 3), ("wipe", 2), ("links", 3), ("revert", 4), ("taint", 2), ("disabled", 2), ("nocache", 2)]
 FAMILIES_THOROUGH = [(f, n * 18) for f, n in FAMILIES_QUICK]
 
 # round-c families (generators in _hist2.py)
@@ -71,6 +87,7 @@ def run(ctx):
         hists.append(H.gen_swap(ctx.rng, nocache=True))
         hists.append(H.gen_swap(ctx.rng, nocache=False))
         hists.append(H.gen_globout(ctx.rng))
+        hists.append(H.gen_samerel(ctx.rng))
     for fam, n, kw in FAMILIES2_QUICK:
         for _ in range(n if quick else n * 15):
             hists.append(GEN2[fam](ctx.rng, **kw))
